@@ -1158,7 +1158,15 @@ def enumerated(prop):
     return None
 
 
+def g_apisweep(rng):
+    """two tree automata (loaded into all three tree encodings) and two NFAs for the API sweep of C20"""
+    A, B, _ = rand_pair(rng)
+    NA, NB = nfa_pair(rng)
+    return f"apisweep {A.tok()} {B.tok()} {NA.tok()} {NB.tok()}"
+
+
 GENERATORS = {
+    "apisweep": g_apisweep,
     "meta": g_meta, "metaf": g_metaf,
     "parse": g_parse,
     "bddincl": g_bddincl, "bddinclall": g_bddinclall, "bddtd": g_bddtd, "bddh": g_bddh,
